@@ -56,6 +56,11 @@ func runC04(c *runCtx) {
 		{[]byte("x,y,z\n1,2\n" + strings.Repeat("7,8,9\n", 700)), 3072}, {[]byte("h1\th2\n1\n" + strings.Repeat("a\tb\n", 900)), 0},
 	}
 	aborters := []int{2, 3, 11, 14} // indices above: parses / reads that end early
+	// parses abandoned with a long path on the scanner's stack, and a document nested beyond the depth cap examined in
+	// full: the cap is the same before and after any of them
+	inputs = append(inputs, c04in{[]byte(strings.Repeat("[", 5000) + strings.Repeat("]", 5000)), 0}, c04in{[]byte(strings.Repeat("{\"k\":", 200)), 3072},
+		c04in{[]byte(strings.Repeat("[", 200)), 3072}, c04in{[]byte(strings.Repeat("{\"k\":[", 2100) + "1" + strings.Repeat("]}", 2100)), 0})
+	aborters = append(aborters, len(inputs)-4, len(inputs)-3, len(inputs)-2, len(inputs)-1)
 	for i := range inputs {
 		if bytes.HasPrefix(inputs[i].data, []byte("a,b\tc\n1\n")) || bytes.HasPrefix(inputs[i].data, []byte("x,y,z\n1,2\n")) || bytes.HasPrefix(inputs[i].data, []byte("h1\th2\n1\n")) {
 			aborters = append(aborters, i)
